@@ -95,6 +95,16 @@ CHECKS.update({
         text='Random module DAGs are built with 1..8 workers through a compiler wrapper that logs start/end (O_APPEND) and sleeps a seed-derived time; TLC checks each log: start after all providers finished, each object once, link after all, library equals the serial build; also rebuild and aliasing scenarios.',
         note='One known finding (dependencies resolved by file stem, not by provided module). Real schedules are sampled.'),
 })
+CHECKS.update({
+    'C41': dict(
+        technique='TLA+ clauses WellFormedIR (ParentLink, ScopeOnChain, Resolvable) model-checked on small scope trees and evaluated by TLC on independently exported IR after each built-in transformation; frontend re-parse and gfortran -fsyntax-only recorded as facts',
+        text='A registry of 49 built-in transformation entries (with option combinations) is applied without the Scheduler to generated kernels with internal procedures, marked inline calls, outline regions, loop pragmas, associates, dead branches; after each application the exported scope tree and every symbol occurrence are judged by Trace_WellFormedIR, which names the offending symbol. Offenders present before the transformation are exempt.',
+        note='Transformations that raise for an input are counted, not judged. Pairs of transformations in thorough. Several known findings.'),
+    'C43': dict(
+        technique='TLA+ model of the auto-fix contract (LintFix.tla: target tokens per lexical region; ReLintClean, UnchangedOutsideTargets, BehaviourPreserved) model-checked; real Linter runs with fix enabled recorded and validated by Trace_LintFix, behaviour by Trace_FMachine',
+        text='Generated programs rendered with old-style relational operators (random case/spacing) mixed with strings and comments containing the same spellings, and routines with dynamic UBOUND checks; original lines, fixed lines, re-lint reports and program output are recorded; TLC decides the three clauses.',
+        note='On the unchanged tree the operator fixer raises (known finding), so most cases end in FixApplies; the remaining clauses are exercised by the UBOUND rule and by the selftest corruptions.'),
+})
 NOT_APPLICABLE = {p: 'check not built yet (work in progress; see DESIGN.md build order)' for p in ALL if p not in CHECKS}
 for e in ENGINES:
     e['serves_properties'] = sorted(CHECKS)
